@@ -119,3 +119,16 @@ PROPS["C09"] = dict(
              "contract stub (to_signed_bytes harnesses only): BigUint::to_bytes_le/be -> NB arbitrary bytes with non-zero top byte (the real functions are decided by c09_*_to_bytes_*)",
              "stub: Vec::shrink_to_fit -> no-op"],
 )
+
+PROPS["C04"] = dict(
+    inject=[("src/bigint.rs", "c04/canon.rs")],
+    kani=[dict(filter_q="c04_q_", filter_t=["c04_q_", "c04_t_"], jobs=14, timeout_q=240, timeout_t=900)],
+    functions=["PartialEq/Ord/PartialOrd/Hash for BigUint and BigInt (cmp_slice)", "normalize/normalized/biguint_from_vec", "IntDigits::normalize for BigInt",
+               "Clone::clone_from"],
+    bounds_quick="comparison/hash: canonical operands of 0..3 digits (all sign pairs for BigInt); normalisation: raw vectors of 0..6 digits with arbitrary trailing zeros and "
+                 "spare capacity; clone_from on 0..3-digit values; a recording Hasher compares the complete hash streams",
+    outside="longer values; multi-step in-place histories are NOT explored as sequences (a two-step += / -= history on one buffer did not finish in 240 s: "
+            "the intermediate length is symbolic) - they are covered by the inductive argument 'every mutator returns a canonical value' whose per-operation "
+            "canonical-result assertions live in the C01, C03, C05, C07, C08, C09, C19 harnesses (check_int / is_canonical on every result)",
+    trusted=STUBS_ADDSUB + ["stub: Vec::shrink_to_fit -> no-op"],
+)
